@@ -59,7 +59,12 @@ func runFunc(repo string, keys []string) int {
 			jobs = append(jobs, job{o, res.Lits, i})
 		}
 		vs := dischargeAll(jobs, workDir, 10, false, 16)
-		type agg struct{ n, ok int; files []string }
+		type agg struct {
+			n, ok int
+			files []string
+			maxs  float64
+			slow  string
+		}
 		m := map[string]*agg{}
 		for i, j := range jobs {
 			a := m[j.o.Name]
@@ -68,6 +73,10 @@ func runFunc(repo string, keys []string) int {
 				m[j.o.Name] = a
 			}
 			a.n++
+			if vs[i].Seconds > a.maxs {
+				a.maxs = vs[i].Seconds
+				a.slow = vs[i].Backend
+			}
 			if vs[i].Status == "discharged" || vs[i].Status == "covered" {
 				a.ok++
 			} else {
@@ -86,7 +95,11 @@ func runFunc(repo string, keys []string) int {
 				st = "FAIL"
 				rc = 1
 			}
-			fmt.Printf("  %s %s (%d/%d)\n", st, n, a.ok, a.n)
+			slow := ""
+			if a.maxs > 1.5 {
+				slow = fmt.Sprintf("   SLOW %.1fs %s", a.maxs, a.slow)
+			}
+			fmt.Printf("  %s %s (%d/%d)%s\n", st, n, a.ok, a.n, slow)
 			for _, f := range a.files {
 				fmt.Println("        ", f)
 			}
